@@ -194,7 +194,12 @@ NA = {
 PENDING = "contracts designed (DESIGN.md 5) but the check is not yet built at this commit"
 
 
+EXPECTED_CLAIMS = [f"C{i:02d}" for i in range(4, 21)]
+
+
 def main():
+    missing = [p for p in EXPECTED_CLAIMS if p not in CLAIMS]
+    assert not missing, f"claims lost from this file: {missing} (every built check must stay claimed)"
     checks = []
     for pid, c in sorted(CLAIMS.items()):
         checks.append({
